@@ -57,9 +57,9 @@ def sites(prog, fn):
     return out
 
 
-def census(prog, roots, stop=None):
+def census(prog, roots, stop=None, cha_ok=None):
     """returns (cone set, {fn: [(bb, kind, what, macro)]})"""
-    cn = cone(prog, roots, stop=stop)
+    cn = cone(prog, roots, stop=stop, cha_ok=cha_ok)
     res = {}
     for p in sorted(cn):
         f = prog.fns[p]
